@@ -499,6 +499,33 @@ theorem migrate_preserves_solvency {w w' : World} {blk : Block} {g : Option Nat}
         rw [hd] at hb; cases hb
         omega
 
+/-- **C11, migrate_succeeds_from_legacy** (the hypotheses of `migrate_preserves_solvency` are met by every
+legacy state — the migration is live): a legacy start state (`LegacyStart`) stored by this contract at a
+version in `[0.11.1, 0.13.0]` with the storage layout of that version, whose booked denominations all
+exist (else the balance query fails) and whose reconciled values fit `Uint128`, is migrated successfully,
+and the result is solvent. -/
+theorem migrate_succeeds_from_legacy {w : World} (hl : LegacyStart w) (blk : Block) (g : Option Nat)
+    (hname : w.st.versionName = CONTRACT_NAME) (hmin : Version.lt w.st.version MIGRATE_MIN_VERSION = false)
+    (hv3 : Version.le w.st.version MIGRATE_VERSION_3 = true)
+    (hlayout : if Version.le w.st.version MIGRATE_VERSION_2 = true then w.st.v1gov.isSome = true else w.st.v1gov = none)
+    (hexists : ∀ e ∈ w.st.chan, (w.holdings e.1.2).isSome = true)
+    (hfit : ∀ e ∈ w.st.chan, ∀ bal, w.holdings e.1.2 = some bal →
+      bal ≤ U128_MAX ∧ e.2.totalSent + (bal - e.2.outstanding) ≤ U128_MAX) :
+    ∃ w' o, w.exec blk (.migrate g) = .ok (w', o) ∧ Solvent w' := by
+  have hent : ∀ e ∈ w.st.chan, ∃ bal, w.holdings e.1.2 = some bal ∧ e.2.outstanding ≤ bal ∧ bal ≤ U128_MAX ∧
+      e.2.totalSent + (bal - e.2.outstanding) ≤ U128_MAX := by
+    intro e he
+    obtain ⟨bal, hb⟩ := Option.isSome_iff_exists.mp (hexists e he)
+    obtain ⟨h1, h2⟩ := hfit e he bal hb
+    have hu := hl.under_booked e.1.1 e.1.2 bal hb
+    have hg := get?_of_mem_nodup hl.well_formed.1 he
+    simp only [outstanding, hg] at hu
+    exact ⟨bal, hb, hu, h1, h2⟩
+  obtain ⟨s', hm⟩ := migrate_ok_of_legacy (gas := g) hname hmin hv3 hlayout hl.one_channel hent
+  have hx : w.exec blk (.migrate g) = .ok ({ w with st := s' }, {}) := by
+    simp [World.exec, hm, bind, Except.bind, pure, Except.pure]
+  exact ⟨_, _, hx, migrate_preserves_solvency hl.well_formed (legacy_solvent hl) hx⟩
+
 /-- Every transaction keeps a well-formed contract solvent — including `migrate` from any stored version. -/
 theorem exec_solvent_wf {w w' : World} {blk : Block} {op : Op} {o : Outcome}
     (hs : Solvent w) (hwf : WellFormed w.st) (h : w.exec blk op = .ok (w', o)) : Solvent w' ∧ WellFormed w'.st := by
@@ -692,6 +719,25 @@ example : LegacyStart wL :=
 example : LegacyStart wL1 :=
   ⟨by decide, ⟨by unfold AMap.NodupKeys; decide, by decide⟩, under_booked_of_check (by decide)⟩
 example : ¬ PostV3 wL := by unfold PostV3; decide
+
+/-- all hypotheses of `migrate_succeeds_from_legacy` hold of the 0.11.1 state `wL1` -/
+example : ∃ w' o, wL1.exec b0 (.migrate none) = .ok (w', o) ∧ Solvent w' :=
+  migrate_succeeds_from_legacy
+    ⟨by decide, ⟨by unfold AMap.NodupKeys; decide, by decide⟩, under_booked_of_check (by decide)⟩ b0 none
+    rfl (by decide) (by decide) (by decide) (by decide)
+    (by
+      intro e he bal hb
+      have he' : e = (("channel-0", Denom.native "uatom"), ⟨40, 40⟩) ∨ e = (("channel-0", Denom.cw20 "T1"), ⟨10, 10⟩) := by
+        simpa [wL1, wL] using he
+      rcases he' with rfl | rfl
+      · have : bal = 100 := by
+          have h100 : wL1.holdings (Denom.native "uatom") = some 100 := by decide
+          rw [h100] at hb; exact (Option.some.inj hb).symm
+        subst this; decide
+      · have : bal = 10 := by
+          have h10 : wL1.holdings (Denom.cw20 "T1") = some 10 := by decide
+          rw [h10] at hb; exact (Option.some.inj hb).symm
+        subst this; decide)
 
 /-- v2 → current: the 60 uatom in flight are booked; holdings = Σ outstanding. -/
 example : outstanding (run wL [(b0, .migrate none)]).st "channel-0" (.native "uatom") = 100 ∧
